@@ -12,7 +12,7 @@ use cwe_checker_lib::abstract_domain::{AbstractDomain, BitvectorDomain, Interval
 use cwe_checker_lib::analysis::taint::Taint;
 use cwe_checker_lib::intermediate_representation::*;
 
-/// BitvectorDomain::merge for (known, known) operands.
+/// BitvectorDomain::merge for (known, known) operands (one wrapper call per harness: the enum wrapper is expensive for CBMC).
 pub fn bitvector_vv<S: Src>(s: &mut S, bits: u32) {
     let a = s.uw(bits);
     let b = s.uw(bits);
@@ -22,7 +22,8 @@ pub fn bitvector_vv<S: Src>(s: &mut S, bits: u32) {
     let m = da.merge(&db);
     match &m {
         BitvectorDomain::Value(v) => {
-            chk!(s, a == b && bv_is(v, bits, a), "C03 bitvector: merge of two different known values must not stay a known value");
+            chk!(s, a == b, "C03 bitvector: merge of two different known values must not stay a known value");
+            chk!(s, *v == mk(bits, a), "C03 bitvector: merging a value with itself must represent the same set");
             cov!(s, true, "equal-values case reached");
         }
         BitvectorDomain::Top(sz) => {
@@ -31,13 +32,34 @@ pub fn bitvector_vv<S: Src>(s: &mut S, bits: u32) {
             cov!(s, true, "different-values case reached");
         }
     }
-    // merging with something already absorbed does not change the result
-    let m2 = m.merge(&da);
-    chk!(s, m2 == m, "C03 bitvector: merging the result with an absorbed input changed it");
+    std::mem::forget((da, db, m));
+}
+
+/// merge_with agrees with merge (known, known).
+pub fn bitvector_merge_with<S: Src>(s: &mut S, bits: u32) {
+    let a = s.uw(bits);
+    let b = s.uw(bits);
+    s.note(&|| format!("merge_with Value({:#x}) with Value({:#x}) ({} bits)", a, b, bits));
+    let db = BitvectorDomain::Value(mk(bits, b));
     let mut mw = BitvectorDomain::Value(mk(bits, a));
     mw.merge_with(&db);
-    chk!(s, mw == m, "C03 bitvector: merge_with differs from merge");
-    std::mem::forget((da, db, m, m2, mw));
+    match &mw {
+        BitvectorDomain::Value(v) => chk!(s, a == b && *v == mk(bits, a), "C03 bitvector: merge_with differs from merge"),
+        BitvectorDomain::Top(sz) => chk!(s, a != b && u64::from(*sz) * 8 == bits as u64, "C03 bitvector: merge_with differs from merge"),
+    }
+    cov!(s, true, "end of harness reached");
+    std::mem::forget((db, mw));
+}
+
+/// Merging Top (the result of merging two different values) with an absorbed input stays Top.
+pub fn bitvector_stable<S: Src>(s: &mut S, bits: u32) {
+    let a = s.uw(bits);
+    let da = BitvectorDomain::Value(mk(bits, a));
+    let t = BitvectorDomain::Top(ByteSize::new(bits as u64 / 8));
+    let m2 = t.merge(&da);
+    chk!(s, matches!(m2, BitvectorDomain::Top(_)), "C03 bitvector: merging the result with an absorbed input changed it");
+    cov!(s, true, "end of harness reached");
+    std::mem::forget((da, t, m2));
 }
 
 /// BitvectorDomain::merge with a Top operand.
@@ -151,6 +173,8 @@ pub fn domain_merge_hints<S: Src>(s: &mut S, bits: u32, max_stride: u64, lower: 
 crate::harnesses! {
     @quick c03_bitvector_vv_8[4] => bitvector_vv(8);
     c03_bitvector_vv_64[4] => bitvector_vv(64);
+    @quick c03_bitvector_merge_with_8[4] => bitvector_merge_with(8);
+    @quick c03_bitvector_stable_64[4] => bitvector_stable(64);
     @quick c03_bitvector_top_32[4] => bitvector_top(32);
     @quick c03_taint[4] => taint();
     @quick c03_interval_merge_8_s15[4] => interval_merge(8, 15);
